@@ -396,6 +396,49 @@ def work_history(shard):
     return part
 
 
+# many assignments with fractions of a second in between: the time advances by the elapsed time, no more, no less
+
+DRIFT_STEPS = (0.6, 0.25, 0.9)
+DRIFT_STMTS = [b'DATE$="06-15-1999"', b'DATE$="02-29-2000"', b'TIME$="10:00:00"', b'X$=TIME$+DATE$']
+
+
+def work_drift(shard):
+    part = Partial()
+    for clock, step, si, n in shard:
+        case = {'drift': [clock, step, si, n]}
+        with Env(clock) as e:
+            r = H.run(e.s, SETUP + b'TIME$="10:00:00":DATE$="01-01-1990"')
+            if r.exc is not None or r.err is not None:
+                raise CheckError('C44 drift: set-up failed: %r' % (r,))
+            total = 0.0
+            last_time_set = 0.0
+            for k in range(n):
+                e.vc.advance(step)
+                total += step
+                r = H.run(e.s, SETUP + DRIFT_STMTS[si])
+                if r.exc is not None:
+                    part.violation('drift/host-exception/%s' % H.exc_key(r.exc), repr(r.exc), case)
+                    break
+                if si == 2:
+                    last_time_set = total
+            part.n += 1
+            part.traces += 1
+            t, d = e.read()
+            h_, m_, s_ = (int(x) for x in t.split(b':'))
+            got = h_ * 3600 + m_ * 60 + s_ - 36000
+            # the clock started somewhere inside its second: the whole seconds elapsed since 10:00:00 was last set,
+            # give or take the one that the starting fraction may complete
+            el = total - last_time_set
+            want = {int(el), int(el) + 1}
+            if got not in want:
+                part.violation('drift/time-%s-by-%s' % ('behind' if got < min(want) else 'ahead', DRIFT_STMTS[si].split(b'=')[0].decode()),
+                               'after %d times (%.2f s, then %r): TIME$ is %r, %d s after 10:00:00; %.2f s have passed' % (
+                                   n, step, DRIFT_STMTS[si], t, got, el), case)
+            part.classes.add('drift/%s/%s' % (DRIFT_STMTS[si].split(b'=')[0].decode(), step))
+    part.sample({'drift': list(shard[0])})
+    return part
+
+
 def history_seqs(maxlen):
     import itertools as _it
     out = []
@@ -687,6 +730,11 @@ def legs(ctx):
                          '1 invalid DATE$, clock +3600 s); TIME$ and DATE$ read back after every step' % (
                              len(hs), 3 if q else 4, len(HIST_OPS))))
     ec = environ_cases(q)
+    dr = [(c, st, si, n) for c in range(len(CLOCKS)) for st in DRIFT_STEPS for si in range(len(DRIFT_STMTS))
+          for n in ((1, 7, 40) if q else (1, 2, 3, 7, 40, 200))]
+    out.append(Leg('drift', list(chunked(dr, 12)), work_drift, exhaustive=True,
+                   bound='%d runs: 3 clocks x steps of %s s x %d statements (DATE$ / TIME$ assignment, reading both) repeated n times '
+                         '(n up to %d): TIME$ has advanced by the elapsed time' % (len(dr), DRIFT_STEPS, len(DRIFT_STMTS), 40 if q else 200)))
     out.append(Leg('environ', list(chunked(ec, 40 if q else 60)), work_environ, exhaustive=True,
                    bound='%d cases: %d names x %d values (every single byte 00..FF alone%s, "=", long), odd names, '
                          'all ordered pairs of 5 capitalisations x 3 value pairs as 2-step histories; every read '
@@ -696,6 +744,8 @@ def legs(ctx):
 
 
 def replay(ctx, leg, case):
+    if leg == 'drift':
+        return work_drift([tuple(case['drift'])])
     part = Partial()
     if 'history' in case:
         return work_history((case.get('clock', 0), [tuple((o, v) for o, v in case['history'])]))
